@@ -14,7 +14,7 @@ TStage == Ev("stage") /\ Cur.name = pc /\ Next
 StreamTypeOf(k) == CASE k = "unary" -> 0 [] k = "client" -> 1 [] k = "server" -> 2 [] k = "bidi" -> 3
 DlOK(want, got) == IF want.k \in {"none", "unbounded"} THEN got = -1
                    ELSE IF want.k = "big" THEN got = 1073741824
-                   ELSE got <= want.ms /\ got >= want.ms - 5000
+                   ELSE got >= 0 /\ got <= want.ms /\ got >= want.ms - 5000      \* (-1: user code saw no deadline)
 Fuzzed == "fuzz" \in DOMAIN sc /\ sc.fuzz > 0
 
 TDone ==
